@@ -2,6 +2,7 @@ import Driver.Util
 import Driver.Script
 import SfModel.HandleGInst
 import SfModel.HandleGInst2
+import SfModel.HandleGAiffRw
 open Sf
 
 /-! `sfmodel handleg` — the script language of `sfmodel script` (CONTRIBUTING.md, harness/sfh.c) interpreted on the GENERIC
@@ -78,13 +79,13 @@ def runLine (st : RunState) (line : String) : RunState × Option String :=
       match spec with
       | none => ({ st with dead := true }, some "unmodelled")
       | some sp =>
-        match sp.openH si s0 mode fmt ch sr stale with
+        match (contOf sp).openH si s0 mode fmt ch sr stale with
         | .unmodelled => ({ st with dead := true }, some "unmodelled")
         | .fail s => ({ st with w := { (st.w.setStore si s) with sfErrno := 1 } }, some "open=NULL err=E")
         | .ok h s =>
           let i := idxOf hn
           ({ st with w := (st.w.setStore si s).setHandle i (some { h with canTruncate := canTrunc }),
-                     conts := st.conts.set i (some sp.toCont) }, some (showOpen h))
+                     conts := st.conts.set i (some (contOf sp)) }, some (showOpen h))
   | "w" :: hn :: tyS :: unit :: n :: drest =>
     let dataS := drest.headD ""
     match tyOf tyS with
